@@ -455,6 +455,11 @@ def p_C04(ctx):
     acc_random(ctx, ["prim", "move", "move", "copy", "copy", "write", "sort"], 9000 if ctx.quick else 90000, 12, only_views=True, profile="dev", large_share=0.35)
     acc_random(ctx, ["prim", "move", "copy", "write", "sort"], 2000 if ctx.quick else 30000, 9, only_views=True, profile="release", elem="elem", label="big-elem")
     acc_random(ctx, ["prim", "move", "copy", "write"], 1500 if ctx.quick else 20000, 9, only_views=True, profile="release", elem="w1k", label="kib-elem", large_share=0.4)
+    # long and MEGA (2^18) sort lines through windows narrower than their parent: the driver records whether any parent cell
+    # outside the window changed (SortTrace.tla: outside_ok)
+    for prof in ("dev", "release"):
+        ctx.drive_and_validate("bigsorts", ["sort", ctx.seed + (3 if prof == "dev" else 7922), 300 if ctx.quick else 3000, "{out}"], "SortTrace",
+                               attr_sort_event, profile=prof, invariants=("StableDefsAgree",))
     # mutable iteration in EVERY call order (not only forwards / backwards): all call sequences of the mutable iterators
     # through every window, every yielded reference written through, whole root compared (SeqIter.tla / IterMC.tla)
     mk = ["rows_mut", "col_mut", "cells_mut", "into_mut"]
